@@ -3080,8 +3080,11 @@ coap_handle_request_put_block(coap_context_t *context,
        * random order.  If all blocks are now in, then need to send
        * complete payload to application and acknowledge this current
        * block.
+       * (Without Size1 the total length is only known once the last block
+       * has been seen - which is when last_token gets set.)
        */
-      if (!check_all_blocks_in(&lg_srcv->rec_blocks,
+      if (!lg_srcv->last_token ||
+          !check_all_blocks_in(&lg_srcv->rec_blocks,
                                (uint32_t)(lg_srcv->total_len + chunk -1)/chunk)) {
         /* Ask for the next block */
         coap_insert_option(response, block_option,
